@@ -380,3 +380,14 @@ Theorem C03_mixed_phrases_instance :
   (mixed_ok ($"Say ") [MLk ($"3") ($"#f") ($"x"); MEm 42 1 ($"x") ($".")] = false).
 Proof. exact mixed_instance. Qed.
 Print Assumptions C03_mixed_phrases_instance.
+
+(* ... and such a sentence is a LEAF of the fragment (FSent: a one-line paragraph with any number of emphasised phrases and links in any
+   order), at every nesting depth: the tokens, the HTML (seg_html per segment) and the Markdown round trip compose with the block laws *)
+Theorem C03_fragment_sentence_instance :
+  let gs := [MEm 42 0 ($"one") ($" and "); MLk ($"a link") ($"http://x.y/z_1") ($", then "); MEm 95 1 ($"two words") ($".")] in
+  let t := FQuote [FSent 83 $"ay " gs; FMore (MBullet 45) 1 [FSent 97 $" " [MLk $"x" $"/y" []]] false (FItem (MBullet 45) 1 [FPara 122 [] []])] in
+  wf_b t = true /\
+  text_of (spell t) = [ $"> Say *one* and [a link](http://x.y/z_1), then __two words__." ++ [10%Z]; $"> " ++ [10%Z]; $"> - a [x](/y)" ++ [10%Z]; $"> - z" ++ [10%Z] ] /\
+  wf_b (FSent 83 $"ay" [MEm 42 0 ($"one") ($" and ")]) = false.
+Proof. vm_compute. repeat split; reflexivity. Qed.
+Print Assumptions C03_fragment_sentence_instance.
